@@ -14,8 +14,9 @@ TRUSTED = TRUSTED_BASE + [
     "% and floor being exact is PROVED about the model (fmod_exact, ffloor_exact), not assumed",
     "the model is tied to radix.rs only by the wf correspondence (byte-for-byte, panics included, all option combinations the op carries); "
     "Model.WriteRadix.repoHasCarryFix selects the round-up back-trace of the code under test (true = /repo at or after dbb7ae7)",
-    "the ulp clause is NOT proved: every output is evaluated exactly by the Lean oracle (grammar + big rationals) and its distance to the float is "
-    "measured in ulps; full statement kept as Props.C07.C07_radix_error_bound",
+    "the ulp clause is proved on the DIGITS the model generates (radix_error_bound); that the written TEXT denotes the same number holds when the layout keeps all "
+    "digits (default max_significant_digits and PositionalFits: radix_layout_keeps_all_digits) — the value of a text is not formalised in Lean, it is evaluated exactly "
+    "by the Lean oracle on every output of the stream (grammar + big rationals, ulp distance)",
 ]
 RULE = ("29 generic radices x {f32,f64} x G-bits (every binade min/max/half/random, subnormals, integers below 2^53/2^24 incl. r^k-1, r^k, r^k+1 and carry chains "
         "(values just below powers of the radix), random) x options (default, breaks forcing positional / scientific). Stage 1: implementation vs Lean model of the "
@@ -25,19 +26,18 @@ RULE = ("29 generic radices x {f32,f64} x G-bits (every binade min/max/half/rand
 TECHNIQUE = ("Lean 4 model of the whole generic-radix writer with exactly modelled IEEE arithmetic, tied byte-exactly to radix.rs by differential correspondence; theorems on the model for "
              "every finite f32/f64 and every generic radix (well-formedness, termination inside the scratch buffer, integer exactness, per-step exactness); "
              "exact rational evaluation of each output by the Lean driver for the ulp clause; re-parse correspondence")
-LEVEL_TEXT = ("Proved in Lean on the model of the whole writer (code as in /repo after dbb7ae7, f386e72, 2de23fc), for EVERY finite binary32/binary64 pattern, every generic "
-              "radix and EVERY option set (no bound): (a) radix_wellformed — the text is digits below the radix, at most one decimal point, at most one exponent (sign, digits of the "
-              "exponent radix), no exclusion hypothesis (the digit of an iteration is < radix: 58 kernel-evaluated rounding facts + monotonicity; the back-trace writes digit+1 < radix; "
-              "truncate_and_round / round_up keep digits valid: truncateAndRound_spec); for the original snapshot back-trace the same under the exact hypothesis 'all fraction bytes "
-              "valid' with the decided witness snapshot_roundup_invalid_digit (\"0.203\" in radix 3); (b) radix_generate_total, radix_write_total — fraction loop (delta doubles per "
-              "step), both integer loops (exponent field drops per step, at most bias+2 bytes) and the layouts never PANIC: the call panics iff the caller's slice is shorter than the "
-              "highest index touched (regressions of the two repaired panics: zero_required_exponent_regression, max_digits_regression); (c) radix_integer_exact_full / "
-              "radix_integer_text_full — integers below 2^53 / 2^24: digits are toDigits r n and the written bytes equal the integer-path model, with the former IeeeExact assumption "
-              "proved (ieeeExact_modelOps); (d) radix_split_exact, radix_fraction_step_partial, radix_fraction_error_partial — float = floor + fraction exactly, each iteration is exact except for the one rounding "
-              "of fraction*base, and the n digits written before the final round-up satisfy |fraction - 0.d1..dn - fraction_n r^-n| < 2^(5-p)/(r-1) (telescoped). NOT proved: the ulp bound (C07_radix_error_bound : Prop), measured exactly on every output of the stream; the positional 232-character window "
-              "(recorded finding).")
+LEVEL_TEXT = ("Proved in Lean on the model of the whole writer (code as in /repo after dbb7ae7, f386e72, 2de23fc), for EVERY finite binary32/binary64 pattern and every generic "
+              "radix (no bound): (a) radix_wellformed — for every option set the text is digits below the radix, at most one decimal point, at most one exponent, no exclusion; "
+              "(b) radix_generate_total, radix_write_total — the loops stay inside the scratch buffer and nothing panics except a too short output slice; (c) "
+              "radix_integer_exact_full / radix_integer_text_full — integers below 2^53 / 2^24 are written exactly (IeeeExact proved: ieeeExact_modelOps); (d) the ulp clause, "
+              "radix_error_bound : C07_radix_error_bound — the generated digits denote a number whose nearest float is within 1364 (binary64) / 246 (binary32) patterns of the input "
+              "(judge limits 2048 / 256): radix_error_bound_small_partial (0 <= |x| < 1: 1364 / 196, relative error 2^-p per step, at most 679 / 95 digits), "
+              "radix_error_bound_mid_partial (1 <= |x| < 2^p: 34), radix_error_bound_big_partial (|x| >= 2^p: 1340 / 246, zero padding within (1 +- 2^-p)^z, z <= 613 / 66). "
+              "Text level: with default max_significant_digits and PositionalFits (at most 232 digits; always true for 1 <= |x| < 2^p) the layout uses all digits "
+              "(radix_layout_keeps_all_digits); the excluded case is the recorded finding C07-generic-radix-positional-truncation (positional_truncation_witness). Still measured, "
+              "not proved: the numeric value of the laid-out text (trailing-zero trimming, exponent) and the re-parse, judged exactly on every output.")
 LEVEL_NOTE = ("Trusted: Lean kernel; rustc; hardware IEEE-754 arithmetic incl. exact fmod; differential harness and generators (the model is hand-written, tied by correspondence). "
-              "Proof level for well-formedness, termination and the integer clause on the model; the ulp clause is exploration with an exact judge — labelled partial.")
+              "Proof level for all three clauses on the model at digit level; text-value and re-parse are judged exactly on the stream.")
 
 GENERIC = [r for r in range(3, 37) if r not in (4, 8, 10, 16, 32)]
 
